@@ -74,6 +74,16 @@ def elif_shapes():
     return out
 
 
+def raising_purpose_shapes():
+    """statements whose only purpose is the exception they may raise, or the state they advance"""
+    return [
+        ["try:", "    int('x')", "except ValueError:", "    obs(9)"], ["try:", "    int('x')", "except ValueError:", "    return 5"], ["try:", "    1 / 0", "except ZeroDivisionError:", "    obs(9)"],
+        ["try:", "    {}['k']", "except KeyError:", "    obs(9)"], ["try:", "    next(iter(()))", "except StopIteration:", "    obs(9)"], ["try:", "    ctx.missing", "except AttributeError:", "    obs(9)"],
+        ["try:", "    iter(5)", "except TypeError:", "    obs(9)"], ["try:", "    [1][3]", "except IndexError:", "    obs(9)", "else:", "    obs(8)"], ["try:", "    len(5)", "except TypeError:", "    return 4", "finally:", "    obs(7)"],
+        ["it2 = iter([1, 2])", "next(it2)", "obs(next(it2))"], ["it2 = iter([1, 2])", "next(it2, None)", "obs(list(it2))"],
+    ]
+
+
 class E(Exception):
     pass
 
@@ -299,6 +309,9 @@ CALLEE_EXTRA = [
     "def deco(fn):\n    def wrapper(u1, obs):\n        obs('D')\n        return fn(u1, obs)\n\n    return wrapper\n\n\n@deco\ndef h(u1, obs):\n    return u1\n\n\n" + F_HEAD + "    h(u1, obs)\n" + F_TAIL,
     "def h(x):\n    return 1\n\n\n" + F_HEAD + "    def inner(h):\n        h(3)\n        return 2\n\n    inner(obs)\n" + F_TAIL,
     "def h(x):\n    return 1\n\n\n" + F_HEAD + "    inner = lambda h: [h(3), 2]\n    inner(obs)\n" + F_TAIL,
+    "def h(x):\n    return 1\n\n\n" + F_HEAD + "    def inner(a, *, h=h):\n        h(3)\n        return 2\n\n    inner(1, h=obs)\n" + F_TAIL,
+    "def h(x):\n    return 1\n\n\n" + F_HEAD + "    def inner(h, /, a):\n        h(3)\n        return 2\n\n    inner(obs, 1)\n" + F_TAIL,
+    "def h(x):\n    return 1\n\n\n" + F_HEAD + "    async def inner(a, *, h=h):\n        h(3)\n        return 2\n\n    try:\n        inner(1, h=obs).send(None)\n    except StopIteration:\n        pass\n" + F_TAIL,
     "def h(obs):\n    return 1\n\n\n" + F_HEAD + "    h(obs)\n" + F_TAIL + "\n\ndef h(obs):\n    obs(2)\n",
     "import sys\n\n\ndef h(obs):\n    return 1\n\n\nif len(sys.argv) >= 0:\n    def h(obs):\n        obs(2)\n\n\n" + F_HEAD + "    h(obs)\n" + F_TAIL,
     "def h(obs):\n    return 1\n\n\n" + F_HEAD + "    h = obs\n    h(4)\n" + F_TAIL,
@@ -392,7 +405,7 @@ def run(tier, seed):
     else:
         cons_shapes = rnd.sample(shapes, min(len(shapes), 5000))
     have = {"\n".join(x) for x in cons_shapes}
-    cons_shapes = cons_shapes + [x for x in elif_shapes() if "\n".join(x) not in have]
+    cons_shapes = cons_shapes + [x for x in elif_shapes() if "\n".join(x) not in have] + raising_purpose_shapes()
     stmts = [f"{e}" for e in EXPRS] + STMTS
     ctx = mp.get_context("fork")
     with ctx.Pool(16, maxtasksperchild=300) as pool:
